@@ -335,8 +335,10 @@ def gen_plant(rng, g, name, nodes, f, price_key, chp=False, simple=False, fuel=T
             if rng.random() < 0.5:
                 a['shutdown_ramp_lower_bounds'] = lows[:1]
                 a['shutdown_ramp_upper_bounds'] = [r2(lows[0] * 1.1)]
-            if rng.random() < 0.3:
-                a['ramp_freq'] = g['unit']
+            # one profile value per grid step unless the main unit is finer than the step (then EAO averages the profile); a profile given in a unit
+            # coarser than the step would be longer than the short horizons used here
+            if pd.Timedelta(to_offset(g['unit'])) > pd.Timedelta(to_offset(g['freq'])) or rng.random() < 0.5:
+                a['ramp_freq'] = g['freq']
             a.pop('time_already_running', None); a.pop('last_dispatch', None)
             if not a.get('time_already_off'):
                 a['time_already_off'] = r2(st)
